@@ -216,10 +216,14 @@ def rule_line_reset(ctx):
     r.floor = 2
     mp = anchors.adt_by_name(f, 'Mapping')['path']
     # ---- decoder: roles from the Mapping aggregates of the Iterator impl reached from decode_mappings
-    dec = [b for b in f.body_list if b.promoted is None and b.name == 'next' and (b.d.get('impl_trait') or '').endswith('Iterator')
-           and any(s['k'] == 'assign' and s['r']['k'] == 'agg' and s['r'].get('path') == mp for _, s in b.points())]
+    from .panics import local_cone
+    entry = [x for x in f.body_list if x.name == 'decode_mappings' and x.d.get('pub') and x.promoted is None]
+    if len(entry) != 1:
+        raise anchors.AnchorMissing('public fn decode_mappings: %d' % len(entry))
+    dec = [m for ms in local_cone(f, entry[0]).values() for m in ms
+           if m.name == 'next' and (m.d.get('impl_trait') or '').endswith('Iterator') and m.d['kind'] != 'Closure']
     if len(dec) != 1:
-        raise anchors.AnchorMissing('decoder Iterator::next building Mapping values: %d' % len(dec))
+        raise anchors.AnchorMissing('decoder Iterator::next in the decode_mappings cone: %d' % len(dec))
     b = dec[0]
     line_keys, col_keys = set(), set()
     members = [m for m in f.body_list if m.promoted is None and (m.d.get('impl_adt') == b.d.get('impl_adt'))]
